@@ -606,6 +606,17 @@ def c43(inp, rng, out):
                             mism.add(("C43:%s:%s:hash_differs" % (ca, tag)) if mutable_ else ("C43:%s:hash_differs:%s" % (ca, tag)),
                                      "one NodeMaker gave %s objects of one capability that hash differently" % ca, exr)
                             break
+                    if mutable_ and ca == "MutableFileNode" and not nodes[0].is_readonly() and hasattr(nodes[0], "get_readonly"):
+                        # the read-only node a write node hands out (after the write node was used as a key) against a node
+                        # built from the read-cap string: one capability, one identity
+                        hash(nodes[0])
+                        ro_a = nodes[0].get_readonly()
+                        ro_b = g.make_nodemaker().create_from_cap(ro_a.get_uri())
+                        exr = dict(ex, route="node.get_readonly() vs create_from_cap(readcap)")
+                        if not (ro_a == ro_b) or (ro_a != ro_b):
+                            mism.add("C43:%s:get_readonly:eq_identity" % ca, "node.get_readonly() is not equal to the node of the same read-cap", exr)
+                        elif hash(ro_a) != hash(ro_b):
+                            mism.add("C43:%s:get_readonly:hash_differs" % ca, "node.get_readonly() and the node of the same read-cap hash differently", exr)
                     stats["routes:" + ca] = stats.get("routes:" + ca, 0) + 1
                 except Exception as e:
                     mism.add("C43:%s:one_client_routes:exception:%s" % (ca, type(e).__name__), str(e)[:200], ex)
